@@ -9,18 +9,43 @@ import (
 	"pgregory.net/rapid"
 )
 
-var spineFrame = regexp.MustCompile(`github\.com/enbility/spine-go/(?:spine|model|util)\.([^\s(]*(?:\([^)]*\))?[^\s(]*)\(`)
+var spineLine = regexp.MustCompile(`(?m)^\s*github\.com/enbility/spine-go/(?:spine|model|util)\.(.*)\([^()]*\)\s*$`)
+var genericArgs = regexp.MustCompile(`\[[^\[\]]*\]`)
+
+// SpineFrames returns the spine-go functions of a stack trace, innermost first, normalised:
+// generic instantiations and closure suffixes are stripped ((*FunctionData[...]).DataCopy.func1 ->
+// (*FunctionData).DataCopy). Works for panic stacks and for race detector reports.
+func SpineFrames(stack string) []string {
+	var out []string
+	for _, m := range spineLine.FindAllStringSubmatch(stack, -1) {
+		fn := m[1]
+		for genericArgs.MatchString(fn) {
+			fn = genericArgs.ReplaceAllString(fn, "")
+		}
+		for {
+			i := strings.LastIndex(fn, ".func")
+			if i < 0 {
+				break
+			}
+			rest := fn[i+5:]
+			if strings.Trim(rest, "0123456789.") != "" {
+				break
+			}
+			fn = fn[:i]
+		}
+		out = append(out, fn)
+	}
+	return out
+}
 
 // PanicSignature extracts "panic/<innermost spine-go function>" from a stack, or "" if the
 // stack has no spine-go frame (a harness bug, not a finding).
 func PanicSignature(stack string) string {
-	m := spineFrame.FindStringSubmatch(stack)
-	if m == nil {
+	f := SpineFrames(stack)
+	if len(f) == 0 {
 		return ""
 	}
-	fn := m[1]
-	fn = strings.TrimSuffix(fn, ".func1")
-	return "panic/" + fn
+	return "panic/" + f[0]
 }
 
 // Prop wraps a rapid property: known-finding sentinels end the case quietly, panics that
